@@ -116,7 +116,10 @@ pub fn check(input: &FstInput, rec: &mut Rec) -> CheckResult {
     let distinct_sigs = {
         let mut sigs: std::collections::HashSet<(bool, u64, Vec<(u8, u64, usize)>)> = std::collections::HashSet::new();
         for n in d.nodes.values() {
-            sigs.insert((n.is_final, n.final_output, n.trans.clone()));
+            // (the root is compiled last: its arrival in the cache cannot cost an earlier node its place)
+            if n.addr != d.root {
+                sigs.insert((n.is_final, n.final_output, n.trans.clone()));
+            }
         }
         sigs.len()
     };
@@ -297,6 +300,23 @@ pub fn run(e: &Engine) {
         check(c, rec)
     });
     e.require_class("file_over_1MiB_few_distinct_nodes", 1);
+    // two-cell rows (the shipped shape) and at most two distinct nodes below the root: every subset
+    // of {xy : x in a..e, y in b..c}, under one-, two-, few- and ten-thousand-row tables
+    let two_cell_geoms: [Option<(usize, usize)>; 6] = [Some((1, 2)), Some((2, 2)), Some((7, 2)), Some((64, 2)), Some((1000, 2)), None];
+    e.run_enum("two-cell-rows-two-distinct-nodes", 1024 * 6, |idx, rec| {
+        let mask = idx % 1024;
+        let geom = two_cell_geoms[(idx / 1024) as usize];
+        let mut pairs: gen::Pairs = vec![];
+        for (i, x) in [b'a', b'b', b'c', b'd', b'e'].iter().enumerate() {
+            for (j, y) in [b'b', b'c'].iter().enumerate() {
+                if mask >> (i * 2 + j) & 1 == 1 {
+                    pairs.push((vec![*x, *y], 0));
+                }
+            }
+        }
+        let input = FstInput::new(gen::Front::SetBuilder, geom, pairs);
+        crate::engine::guarded(|| check(&input, rec)).map_err(|f| (input.to_json(), f))
+    });
     // rows wider than the number of distinct nodes: "did not have to evict" holds by counting,
     // without asking the cache
     e.run_prop(
